@@ -35,7 +35,7 @@ STYLES = ("rest", "google", "numpydoc")
 
 def probes():
     return ["partial_doc_with_2plus_undocumented", "permuted_doc", "import_inference_cmd", "gen_prepend_cmd", "exmod_cmd",
-            "gen_infer_mixed_kinds", "gen_directory_cmd", "exmod_two_subpackages", "exmod_names_differing_in_case", "merge_all_lists_op", "rest_doc_with_google_token", "ambiguous_symbol_any", "openapi_emit_ops", "gen_phase1_multi_fk", "docstring_with_footer",
+            "gen_infer_mixed_kinds", "gen_directory_cmd", "exmod_two_subpackages", "exmod_names_differing_in_case", "merge_all_lists_op", "same_path_same_stat_edit", "nameless_interface_emitted", "rest_doc_with_google_token", "ambiguous_symbol_any", "openapi_emit_ops", "gen_phase1_multi_fk", "docstring_with_footer",
             "sync_cmd", "doctrans_cmd", "openapi_cmd", "repeated_occurrences", "ops_ok_somewhere"]
 
 
@@ -144,7 +144,14 @@ def build_T(rng, n_parse, n_emit, n_cmd):
         if em in ("docstring", "function", "class_", "argparse_function", "sqlalchemy", "sqlalchemy_table",
                   "sqlalchemy_hybrid"):
             opts["docstring_format"] = rng.choice(STYLES)
+        if rng.random() < 0.15:
+            # an interface without a name (what a bare docstring or an anonymous schema parses to)
+            spec = dict(spec, name=None)
+            pr["nameless_interface_emitted"] = pr.get("nameless_interface_emitted", 0) + 1
         add({"kind": "emit", "emitter": em, "spec": spec, "opts": opts})
+        if rng.random() < 0.2:
+            add({"kind": "parse_docstring_emit", "text": "\n".join(gen.render_docstring_lines(spec, rng.choice(STYLES))),
+                 "emitter": rng.choice(("json_schema", "argparse_function", "class_", "sqlalchemy", "docstring")), "opts": {}})
     for _ in range(max(2, n_parse // 8)):
         # two modules whose __all__ lists get merged (what gen and exmod do when a file already exists): names that
         # coincide, that differ only in case, that start with an underscore or a digit-like suffix
@@ -204,6 +211,15 @@ def command_ops(rng, pr):
         argv += ["--prepend", "PREPENDED = True\\n"]
         bump("gen_prepend_cmd")
     out.append({"kind": "cmd", "files": {"m.py": mapping}, "argv": argv})
+    # the same project directory converted again after an edit that keeps every file's size and timestamp (a default
+    # 3 -> 7, a letter in a description; timestamps as preserved by cp -p / rsync -t / a checkout): two operations at the
+    # same path, in whichever order the history puts them - nothing remembered from the first may show in the second
+    edited = _same_size_edit(mapping)
+    if edited != mapping:
+        argv2 = [a for a in argv if a != "--emit-and-infer-imports"]
+        for text_ in (mapping, edited):
+            out.append({"kind": "cmd", "files": {"m.py": text_}, "argv": argv2, "root_tag": "proj-gen", "mtime": 1700000000})
+        bump("same_path_same_stat_edit")
     # gen --parse infer over modules of different kinds in the same process
     sa_cols = rng.sample(("dataset_name", "tfds_dir", "as_numpy", "size", "label"), rng.randint(1, 3))
     sa_mod = ("from sqlalchemy import Boolean, Column, Integer, String\n\nBase = object\n\n\nclass Beta(Base):\n"
@@ -319,6 +335,19 @@ def command_ops(rng, pr):
                          rng.choice(("argparse", "sqlalchemy", "class")), "-o", "{ROOT}/gen_out.py"]})
     bump("gen_directory_cmd")
     return out
+
+
+def _same_size_edit(text):
+    """Another program of the same byte length: the first int default changes its digit, else a letter of the first
+    description changes."""
+    import re
+    m = re.search(r"(: int = )(\d)\b", text)
+    if m:
+        return text[:m.start(2)] + ("7" if m.group(2) != "7" else "3") + text[m.end(2):]
+    m = re.search(r"(:cvar \w+: )([A-Za-z])", text)
+    if m:
+        return text[:m.start(2)] + ("Q" if m.group(2) != "Q" else "Z") + text[m.end(2):]
+    return text
 
 
 def build_histories(rng, T, K):
